@@ -131,7 +131,8 @@ func TestVerifLB(t *testing.T) {
 		pool := vpool(r, size, emit)
 		ip := fmt.Sprintf("%d.%d.%d.%d", r.pick(10, 192, 203), r.intn(256), r.intn(256), r.intn(256))
 		if r.intn(6) == 0 {
-			ip = "2001:db8::" + fmt.Sprintf("%x", r.intn(65536))
+			// in the form the code sees it (RemoteAddr().String() prints the canonical text: `2001:db8::0` is `2001:db8::`)
+			ip = net.ParseIP("2001:db8::" + fmt.Sprintf("%x", r.intn(65536))).String()
 		}
 		if policy == "ip_hash" && size > 0 && r.intn(6) == 0 {
 			// boundary of the rendezvous hash: client / upstream pairs whose FNV-1a hash is exactly 0
